@@ -18,6 +18,8 @@ enum Op {
 	Probe(u8, u8),
 	/// read a, insert b, read a
 	ProbeGet(u8, u8),
+	/// add a (present or not), insert b, read a
+	ProbeAdd(u8, u8),
 }
 
 #[derive(Clone, Debug, Serialize, Deserialize)]
@@ -47,6 +49,7 @@ fn strategy(max_ops: usize) -> impl Strategy<Value = Case> {
 			1 => k().prop_map(Op::LoadErr),
 			2 => (k(), k()).prop_map(|(a, b)| Op::Probe(a, b)),
 			1 => (k(), k()).prop_map(|(a, b)| Op::ProbeGet(a, b)),
+			1 => (k(), k()).prop_map(|(a, b)| Op::ProbeAdd(a, b)),
 		];
 		(proptest::collection::vec(op, 1..max_ops), prop_oneof![6 => Just(0u8), 1 => Just(8u8), 2 => Just(16u8), 1 => Just(31u8), 3 => Just(32u8), 1 => Just(53u8), 1 => Just(63u8)], 0u16..600)
 			.prop_map(move |(ops, counter_bits, counter_below)| Case { capacity, slack, ops, counter_bits, counter_below })
@@ -156,9 +159,12 @@ fn oracle(case: &Case, obs: &mut Obs) -> Result<(), Fail> {
 			}
 			Op::LoadOk(k) => do_load(&mut cache, &mut m, cap, step, k, true)?,
 			Op::LoadErr(k) => do_load(&mut cache, &mut m, cap, step, k, false)?,
-			Op::Probe(a, b) | Op::ProbeGet(a, b) => {
+			Op::Probe(a, b) | Op::ProbeGet(a, b) | Op::ProbeAdd(a, b) => {
 				let touched = if matches!(op, Op::Probe(..)) {
 					do_load(&mut cache, &mut m, cap, step, a, true)?;
+					true
+				} else if matches!(op, Op::ProbeAdd(..)) {
+					do_add(&mut cache, &mut m, cap, step, a)?;
 					true
 				} else {
 					do_get(&mut cache, &mut m, cap, step, a)?.is_some()
@@ -191,7 +197,7 @@ fn main() {
 	let mut check = Check::from_args(
 		"C20",
 		"exploration",
-		"proptest histories of add/get/get_or_set(ok|err)/probe operations over 1..16 (or up to 96) keys, capacities 1..=64 with byte slack, against an observational map model; a case is non-trivial when the history passes through >= 2 evictions and contains a use/insert/read probe executed at full capacity; distinct = distinct serialised histories",
+		"proptest histories of add/get/get_or_set(ok|err)/probe operations (use a key through get_or_set, get or add; insert another key; the first one must still be there) over 1..16 (or up to 96) keys, capacities 1..=64 with byte slack, against an observational map model; a case is non-trivial when the history passes through >= 2 evictions and contains a use/insert/read probe executed at full capacity; distinct = distinct serialised histories",
 	);
 	check.assume("cache value type u64, key type u32 (the cache is generic; the eviction logic does not depend on the types)");
 	vt::engine::watchdog(1800);
